@@ -90,6 +90,50 @@ def periodOfRate (rate : Float) : Int := (Float.round (1e9 / rate)).toInt64.toIn
 /-- the pinned snapshot (finding F7): `int(1e9 / rate)` truncates. -/
 def periodOfRateUnfixed (rate : Float) : Int := (Float.floor (1e9 / rate)).toInt64.toInt
 
+/-! ### The same read-back over exact rationals (the standard model of IEEE arithmetic)
+
+`Continuous.sample_rate` stores `1e9 / dt` (one correctly rounded double division) and
+`Continuous.from_dataset` reads `int(round(1e9 / rate))` (a second one, then round-half-even).  Here the two
+functions are written once over `Rat`, generic in the rounding `fl : Rat → Rat` of a division; `flDouble` is
+round-to-nearest-even to a 53-bit significand (normal range), executed exactly. -/
+
+/-- `2^e` for an integer exponent -/
+def pow2 (e : Int) : Rat := if 0 ≤ e then ((2 ^ e.toNat : Nat) : Rat) else 1 / ((2 ^ (-e).toNat : Nat) : Rat)
+
+/-- Python's `round(x)` on an exact value: nearest integer, ties to even. -/
+def roundHalfEven (q : Rat) : Int :=
+  let f := q.floor
+  let r := q - f
+  if r < 1 / 2 then f else if 1 / 2 < r then f + 1 else if f % 2 = 0 then f else f + 1
+
+/-- `⌊log₂ x⌋` for `x > 0`: from the bit lengths of numerator and denominator, corrected by one comparison -/
+def ilog2 (x : Rat) : Int :=
+  let g : Int := (Nat.log2 x.num.toNat : Int) - (Nat.log2 x.den : Int)
+  if pow2 g ≤ x then g else g - 1
+
+/-- correctly rounded double of an exact value (round to nearest, ties to even, 53 significant bits; no
+    overflow/underflow: the quantities here lie in `[2^-30, 2^31]`) -/
+def flDouble (x : Rat) : Rat :=
+  if x = 0 then 0
+  else
+    let ax := if x < 0 then -x else x
+    let ulp := pow2 (ilog2 ax - 52)
+    let m : Rat := (roundHalfEven (ax / ulp) : Int)
+    if x < 0 then -(m * ulp) else m * ulp
+
+/-- the standard model of a correctly rounded operation on positive reals: relative error at most `2^-53` -/
+def StdModel (fl : Rat → Rat) : Prop :=
+  ∀ x : Rat, 0 < x → x - x / 9007199254740992 ≤ fl x ∧ fl x ≤ x + x / 9007199254740992
+
+/-- `Continuous.sample_rate`: `1e9 / self.dt` -/
+def sampleRateQ (fl : Rat → Rat) (dt : Int) : Rat := fl (1000000000 / (dt : Rat))
+
+/-- `Continuous.from_dataset`: `int(round(1e9 / rate))` -/
+def periodOfRateQ (fl : Rat → Rat) (rate : Rat) : Int := roundHalfEven (fl (1000000000 / rate))
+
+/-- the pinned snapshot (finding F7): `int(1e9 / rate)` -/
+def periodOfRateUnfixedQ (fl : Rat → Rat) (rate : Rat) : Int := (fl (1000000000 / rate)).floor
+
 /-! ### protocol -/
 open Verif.Proto
 
@@ -201,6 +245,21 @@ def handle : List String → Option String
   | ["c05.dtu", rate] => do
     let r ← float? rate
     some (toString (periodOfRateUnfixed r))
+  | ["c05.fl", x] => do
+    let x ← rat? x
+    some (showRat (flDouble x))
+  | ["c05.rateq", dt] => do
+    let dt ← int? dt
+    if dt ≤ 0 then none else some (showRat (sampleRateQ flDouble dt))
+  | ["c05.dtq", rate] => do
+    let r ← rat? rate
+    if r ≤ 0 then none else some (toString (periodOfRateQ flDouble r))
+  | ["c05.dtqu", rate] => do
+    let r ← rat? rate
+    if r ≤ 0 then none else some (toString (periodOfRateUnfixedQ flDouble r))
+  | ["c05.round", x] => do
+    let x ← rat? x
+    some (toString (roundHalfEven x))
   | _ => none
 
 end Verif.C05
